@@ -725,3 +725,87 @@ def rp6(ctx):
                   'replaying a %s entry can make open fail (%s): after an ordinary delete / truncate + GC the entry refers to a queue replay no longer knows, and every other queue becomes unreadable' % (kind, b.loc(bad[0]['point']) if bad else '-'))
     if n == 0:
         ctx.missing('arms', 'no Truncate / RecordPosition / DeleteQueue replay arm found')
+
+
+@rule('FH3', ['C06', 'C01'], floor=1, template='provenance+guard')
+def fh3(ctx):
+    """Replay attributes a record to the file the reader is on when it STARTS reading that record: the handle handed to
+    the in-memory append is a clone of the reader's current file taken inside the replay loop, before the read of the
+    same iteration (on every path round the loop -- a clone refreshed only after a successfully applied record goes
+    stale across a skipped, damaged one, and pins or releases the wrong file)."""
+    from rules_open import replay_sites
+    from rules_log import replay_arms
+    from rules_misc import expand_arm_sites
+    rs = replay_sites(ctx)
+    if not rs:
+        ctx.missing('replay', 'no replay loop')
+        return
+    b, cs0 = rs[0]
+    arms = replay_arms(ctx, b, cs0)
+    if 'AppendRecords' not in arms:
+        ctx.missing('arm', 'no AppendRecords replay arm')
+        return
+    (edge, region) = arms['AppendRecords']
+    loops = [L for L in b.loops() if cs0.block in L['blocks']]
+    if not loops:
+        ctx.missing('loop', 'the record reader is not called in a loop')
+        return
+    L = min(loops, key=lambda L_: len(L_['blocks']))
+    FN = 'rolling::file_number::FileNumber'
+    n = 0
+    for (host, cs, _res) in expand_arm_sites(ctx, b, region):
+        if host is not b or cs.node is None or not ctx.E.call_may(cs, 'MEM'):
+            continue
+        fargs = [a for a in cs.args if op_local(a) is not None and b.local_ty(op_local(a)).replace('&', '').strip() == FN]
+        if not fargs:
+            continue
+        n += 1
+        # origins: clone calls reached through re-borrows
+        clones = []
+        other = []
+        seen, work = set(), [op_local(fargs[0])]
+        while work:
+            l = work.pop()
+            if l is None or l in seen:
+                continue
+            seen.add(l)
+            for o in b.trace_local(l):
+                if o[0] == 'call' and o[1].name.endswith('as std::clone::Clone>::clone') and FN in o[1].name:
+                    clones.append(o[1])
+                elif o[0] == 'rv' and o[2]['k'] == 'ref' and not [e for e in o[2]['place']['p'] if e['k'] != 'deref']:
+                    work.append(o[2]['place']['l'])
+                elif o[0] == 'call' and o[1].name.split('::')[-1] in ('deref', 'as_ref', 'borrow'):
+                    work.append(o[1].arg_local(0))
+                else:
+                    other.append(o)
+        ok = bool(clones) and not other
+        why = 'the handle does not come from a clone of the reader\'s current file'
+        for c in clones:
+            if c.block not in L['blocks']:
+                ok = False
+                why = 'the clone at %s is taken outside the replay loop' % b.loc(c.point)
+            elif not b.dominates(c.point, cs0.point):
+                ok = False
+                why = 'the clone at %s is not taken before the read of the same iteration' % b.loc(c.point)
+        ctx.check(ok, 'replay:file-of-record', where(b, cs.point), 'the handle stored with a replayed record is the reader\'s current file cloned at the top of the iteration',
+                  'replay can attribute a record to a stale file (%s): a WAL file stays pinned although nothing retained lives in it, or is released while it holds a retained record' % why)
+    if n == 0:
+        ctx.missing('append', 'no in-memory append taking a FileNumber in the AppendRecords replay arm')
+
+
+@rule('MQ2', ['C01', 'C04', 'C18'], floor=1, template='provenance')
+def mq2(ctx):
+    """A queue is empty when it holds no RECORD: `MemQueue::is_empty` is decided by the record metas, not by the payload
+    bytes (records with empty payloads are records: a queue made of them is not empty, and recording a position for it
+    -- which replay answers by resetting the queue -- would wipe them)."""
+    bs = ctx.fn('mem::queue::MemQueue::is_empty')
+    if not bs:
+        ctx.missing('is_empty', 'MemQueue::is_empty not found')
+        return
+    b = ctx.f.inlined(bs[0], lambda cb: len(cb.blocks) < 40, 'mq2')
+    fl = flow_of(b)
+    back = fl.backward({('l', 0)})
+    metas = any(x[0] == 'm' and x[1] == 'MemQueue.record_metas' for x in back)
+    others = sorted(x[1] for x in back if x[0] == 'm' and x[1].startswith('MemQueue.') and x[1] != 'MemQueue.record_metas')
+    ctx.check(metas and not others, 'is_empty:decided-by-metas', b.span, 'is_empty is computed from record_metas only',
+              'MemQueue::is_empty is not decided by the record metas alone (reads %s): a queue holding only empty-payload records would be treated as empty, its position recorded and the queue reset at the next replay' % (others or 'nothing of record_metas'))
